@@ -124,8 +124,10 @@ def run(tape, ctx: Ctx, transport_choice=None) -> None:
     kinds = {}
     if fault_level:
         for kind, w in (("break-retryable", 3), ("break-nonretryable", 1), ("break-foreign", 1),
-                        ("server-error-code", 1)):
-            if tape.chance(w, w + 1, f"enable-{kind}"):
+                        ("server-error-code", 1), ("open-fail", 1), ("close-ok", 1)):
+            # (a clean close by the server nearly always ends in the recorded finding, which ends the run:
+            # keep it to a quarter of the faulty runs so that the other oracles keep their share)
+            if tape.chance(w, w + (3 if kind == "close-ok" else 1), f"enable-{kind}"):
                 kinds[kind] = 1
                 ctx.fault_configured(kind)
     n_cancels = tape.weighted([5, 2, 1], "n-cancels")
@@ -210,12 +212,12 @@ def _drive(sim, ctx, loop, server, user, jobs, n_jobs, transport) -> None:
         if sim.steps - start > bound:
             raise Violation(f"{P}-HANG", _hang_text(server, user, jobs, f"not settled {bound} fair events after "
                                                                          f"the last fault", transport),
-                            fingerprint=_hang_fingerprint(loop, user, transport))
+                            fingerprint=_hang_fingerprint(loop, user, transport, server, jobs))
         try:
             sim.fire_one(allow_time=False)
         except Deadlock:
             raise Violation(f"{P}-HANG", _hang_text(server, user, jobs, "nothing is enabled any more", transport),
-                            fingerprint=_hang_fingerprint(loop, user, transport))
+                            fingerprint=_hang_fingerprint(loop, user, transport, server, jobs))
         _abstract_state(ctx, server, user, jobs)
     ctx.probe("w3:fair-phase")
     _quiesce(sim, loop)
@@ -247,8 +249,26 @@ def _hang_text(server, user, jobs, why, transport) -> str:
             f"streams: {[(s.epoch, 'alive' if s.alive else 'dead', 'half' if s.half_closed else '') for s in server.streams]}")
 
 
-def _hang_fingerprint(loop, user, transport) -> str:
+def _hang_fingerprint(loop, user, transport, server=None, jobs=()) -> str:
     """Identify *where* the client is stuck (call site), for the known-findings file."""
+    if server is not None and server.clean_closes:
+        # every hung job is explained by a stream the server ended without an error: its last request was
+        # unanswered on that stream (nobody tells the execution coroutine to retry), or was taken off the queue
+        # by that stream's request poller (no sentinel ever stops it) and dropped
+        closed = {e for (e, _w) in server.clean_closes}
+        waiting = {m for (_e, w) in server.clean_closes for m in w}
+        explained = []
+        for k in user.unresolved():
+            jname = jobs[k][1]
+            reqs = [(e, m, lost or dead) for (e, m, _k, j, dead, lost) in server.requests_log if j == jname]
+            if reqs and ((reqs[-1][1] in waiting) or (reqs[-1][2] and reqs[-1][0] in closed)):
+                explained.append(k)
+        if explained and len(explained) == len(user.unresolved()):
+            return f"{P}-HANG:stream-ended-without-error-by-server"
+        if server.orphaned_request_iterators:
+            # request iterators of cleanly ended streams are still competing for the queue: a sentinel meant for a
+            # later stream may stop one of them instead, and requests go to streams that are gone
+            return f"{P}-HANG:stream-ended-without-error-by-server"
     for t in asyncio.all_tasks(loop):
         coro = t.get_coro()
         if getattr(coro, "cr_code", None) is None or coro.cr_code.co_name != "_manage_stream" or t.done():
@@ -392,6 +412,22 @@ def _final_oracle(sim, ctx, loop, server, user, jobs, failing, transport) -> Non
                                 f"{[c.rsplit('/', 1)[-1] for c in m.cancel_requests]})")
             if n_cancel:
                 ctx.probe("w3:cancel-rpc-sent")
+            # ... and takes effect there: a job that the server created only *after* the one cancel RPC for it
+            # had come and gone (the create request was still queued when the caller cancelled) runs on with
+            # nobody left to fetch or cancel it, although its submitter holds a cancelled future
+            # (Only the case the client controls: no request for the job had left the client's queue when it
+            # issued the cancel RPC.  A cancel that overtakes a create already on the wire is the server's race.)
+            sj = m.jobs.get(jname)
+            first_read = min([m.read_step[x] for x in mids if x in m.read_step], default=None)
+            if (outcome == "cancelled" and sj is not None and n_cancel and first_read is not None
+                    and first_read > max(m.cancel_steps[jname]) and sj.created_step > first_read):
+                raise Violation(f"{P}-CANCEL-INEFFECTIVE",
+                                f"{short}: cancelled by its submitter at event {info['step']}; the client issued "
+                                f"cancel_quantum_job at event {max(m.cancel_steps[jname])}, when none of its requests "
+                                f"{mids} had left the request queue; the queued request was sent afterwards (event "
+                                f"{first_read}) and the server created the job at event {sj.created_step} (state at the "
+                                f"end: {sj.state})",
+                                fingerprint=f"{P}-CANCEL-INEFFECTIVE:create-request-still-queued-at-cancel")
         if outcome == "result" and len(mids) > 1:
             ctx.probe("w3:result-after-retry")
     # cancel RPCs only for jobs the user cancelled or that were in flight at a stop()
